@@ -132,6 +132,39 @@ def run(ctx):
     # ------------------------------------------------------------------ C11.h
     _value_equality_rules(ctx, repo)
 
+    # ------------------------------------------------------------------ C11.i
+    ctx.decided.append('C11.i value equality of every value class covers each stored constructor parameter (otherwise "reads back to an equal value" says nothing about it)')
+    ctx.rule('C11.i', 'equality completeness: for every class with _value_equality_values_, each constructor parameter that backs stored state is read by the equality values '
+             '(listed exceptions: tolerances, connection handles)', floor=80, style='COH')
+    EQ_PARAM_EXEMPT = {
+        ('cirq.ops.pauli_sum_exponential.PauliSumExponential', 'atol'): 'tolerance of the commutation check made in __init__, not part of the value',
+        ('cirq_google.engine.engine.EngineContext', 'timeout'): 'connection context, compared by client and protocol version on purpose',
+        ('cirq_google.engine.engine.EngineContext', 'serializer'): 'connection context',
+        ('cirq_google.engine.engine.EngineContext', 'enable_streaming'): 'connection context',
+        ('cirq_google.engine.engine.EngineContext', 'compress_run_context'): 'connection context',
+    }
+    for vc in sorted(repo.classes.values(), key=lambda c: c.qual):
+        if '.testing.' in vc.qual or '.contrib.' in vc.qual:
+            continue
+        ve = vc.methods.get('_value_equality_values_')
+        if ve is None:
+            continue
+        p2f_ = F.init_param_to_field(repo, vc)
+        rd_ = F.self_reads(repo, vc, ve, depth=2)
+        if not p2f_ or '<self>' in rd_:
+            continue
+        miss_ = []
+        for p_, fs_ in p2f_.items():
+            fs_ = {f for f in fs_ if '.' not in f}
+            if not fs_ or (vc.qual, p_) in EQ_PARAM_EXEMPT:
+                continue
+            if fs_ & rd_ or F.norm_field(repo, vc, p_) in rd_ or any(p_ == r.lstrip('_') for r in rd_):
+                continue
+            miss_.append(p_)
+        ctx.ob('C11.i', vc.qual + (':' + ','.join(miss_) if miss_ else ''), not miss_,
+               '' if not miss_ else f'{vc.name}.__init__ stores {miss_}, but _value_equality_values_ ignores {"it" if len(miss_) == 1 else "them"}: values that differ only there '
+               'compare (and hash) equal, so every round-trip check passes even when the field is lost', vc.mod.rel, ve.lineno, construct=vc.qual)
+
     # ------------------------------------------------------------------ C11.f
     ctx.rule('C11.f', 'corpus: every "cirq_type" string in */json_test_data/*.json{,_inward} is a key of some resolver', floor=250, style='WR')
     union = set().union(*all_keys.values())
